@@ -12,6 +12,7 @@ first = {}
 for s in range(s0, s0 + n):
     r = run_cfg(make_cfg(s, prof, tier))
     agg.update(r["stats"]); reach.update(r["reach"])
+    for inc in r["incidents"]: print('INCIDENT', s, inc)
     if r["harness_error"]:
         print("HARNESS", s, r["harness_error"]); break
     v = r["violation"]
